@@ -49,13 +49,16 @@ Known(r) == r >= 1 /\ r <= Len(Nodes)
 OpOf(r)  == IF Known(r) THEN Nodes[r].op ELSE "opaque"
 PropOfRule(r) == IF Known(r) THEN Nodes[r].prop ELSE "C01"
 
-FullVis(cf)   == cf \in {3, 4}
-HasUnwind(cf) == cf \in {2, 4}
+\* control families: 1 hidden, 2 hidden + unwind, 3 full, 4 full + unwind, 5 / 6 must_if< Errors > (full + unwind; 5: a rule
+\* with a message raises on local failure, 6: Errors::raise_on_failure decides)
+FullVis(cf)   == cf \in {3, 4, 5, 6}
+HasUnwind(cf) == cf \in {2, 4, 5, 6}
+MiOf(cf)      == IF cf = 5 THEN 1 ELSE IF cf = 6 THEN 2 ELSE 0
 
 \* context of an invocation, as far as the denotation depends on it (DESIGN.md 2.4)
 \* (incremental inputs have no fixed end pointer: e = -1, the logical end is the end of the stream)
 CtxOf(f) == [A |-> f.A, lim |-> IF f.e < 0 THEN Len(cs.w) ELSE f.e, fam |-> f.af, vis |-> IF FullVis(f.cf) THEN 1 ELSE 0,
-             eol |-> cs.eol, ib |-> cs.ib, il |-> cs.il, ic |-> cs.ic, dep |-> IF f.d >= 0 THEN f.d ELSE 0]
+             eol |-> cs.eol, ib |-> cs.ib, il |-> cs.il, ic |-> cs.ic, dep |-> IF f.d >= 0 THEN f.d ELSE 0, mi |-> MiOf(f.cf)]
 PosCtx == [eol |-> cs.eol, ib |-> cs.ib, il |-> cs.il, ic |-> cs.ic]
 
 VisibleF(f) == Known(f.r) /\ (FullVis(f.cf) \/ Nodes[f.r].en = 1)
@@ -303,6 +306,7 @@ DenV(f, idx, v, o, x) ==   \* v: 1 success, 0 failure, 2 exception of class x
             prop == IF FrameLim(f) # 0 \/ (d.k = "X" /\ d.who \in D!XLimits) THEN "C18"
                     ELSE IF cs.cls >= 2 THEN "C07"       \* the same case through a memory input is validated separately
                     ELSE IF cs.xt = 3 THEN "C03"         \* slice: the bytes behind the logical end influenced the outcome
+                    ELSE IF MiOf(cs.cf) > 0 THEN "C05"   \* must_if: which local failures become global ones
                     ELSE PropOfRule(f.r)
         IN If(~agree, V(prop, idx, f.r, "outcome differs from the denotation", <<v, o, x>>, d))
 
@@ -380,7 +384,8 @@ OnExc(ev, idx) ==
            /\ verd' = VCap(verd
                 \* (a limit action -- limit_depth, limit_bytes, check_bytes -- raises outside the rule's own attempt: before
                 \* start, or after success; then the protocol is already balanced and no unwind is due)
-                \o If(~fuel /\ vis /\ HasUnwind(f.cf) /\ f.ph # 5 /\ ~(FrameLim(f) # 0 /\ f.ph \in {0, 3}),
+                \* (a must_if control raises from the failure hook: the protocol is balanced by that hook, no unwind is due)
+                \o If(~fuel /\ vis /\ HasUnwind(f.cf) /\ f.ph # 5 /\ ~(FrameLim(f) # 0 /\ f.ph \in {0, 3}) /\ ~(f.ph = 4 /\ Known(f.r) /\ D!Rof(f.r, CtxOf(f))),
                       V("C08", idx, f.r, IF f.ph = 2 /\ f.av = 3 THEN "exception thrown by the action: no unwind hook" ELSE "exception passed through without an unwind hook", f.ph, 0))
                 \o If(~fuel /\ vis /\ ~HasUnwind(f.cf) /\ f.ph \notin {1, 2} /\ ~(FrameLim(f) # 0 /\ f.ph \in {0, 3}),
                       V("C08", idx, f.r, "exception passed through after an end hook", f.ph, 0))
@@ -400,12 +405,13 @@ MsgOf(who, m) ==
    ELSE IF who = D!XBytes THEN "maximum allowed rule consumption reached"
    ELSE IF who = D!XCheck THEN "maximum allowed rule consumption exceeded"
    ELSE IF who < 1 THEN ""
+   ELSE IF MiOf(cs.cf) > 0 /\ Nodes[who].mihas = 1 THEN Nodes[who].mimsg       \* must_if: Errors::message< Rule >
    ELSE IF m = 1 THEN (IF Nodes[who].thas = 1 THEN Nodes[who].tmsg ELSE "parse error matching " \o Nodes[who].s)   \* raise< T >: Control< T >::raise
    ELSE IF Nodes[who].hasmsg = 1 THEN Nodes[who].emsg
    ELSE "parse error matching " \o Nodes[who].dn
 
 TopCtx == [A |-> cs.A, lim |-> Len(cs.w), fam |-> cs.af, vis |-> IF FullVis(cs.cf) THEN 1 ELSE 0,
-           eol |-> cs.eol, ib |-> cs.ib, il |-> cs.il, ic |-> cs.ic, dep |-> 0]
+           eol |-> cs.eol, ib |-> cs.ib, il |-> cs.il, ic |-> cs.ic, dep |-> 0, mi |-> MiOf(cs.cf)]
 
 OnEnd(ev, idx) ==
    LET d == IF Known(cs.g) THEN D!Den(cs.g, 0, TopCtx, DenFuel) ELSE D!RO
